@@ -138,7 +138,10 @@ pub fn gen(rng: &mut Rng, tier: Tier) -> Case {
             }
             _ => {
                 args.push("-s".to_string());
-                args.push("sum".to_string());
+                args.push((*rng.pick(&["sum", "sum,s", "s,sum,sum"])).to_string());
+                if rng.chance(1, 2) {
+                    args.push("-H".to_string());
+                }
             }
         }
         Op::View {
